@@ -56,6 +56,20 @@ def run(chk):
     dup = duplicates(r.out)
     chk.cov["distinct_nontrivial"] = max(0, chk.cov["distinct_nontrivial"] - dup)
     gc.box_objects(chk, "c15", 3 if quick else 5)
+    # the share a tracker hands to its metric is the share of the box within ITS call (scene): VisualSORT batches with
+    # own-area gates, several scenes in one batch (in the slot world a detection owns all of its box or - with a second
+    # detection on its slot - nothing); disagreements that one-scene batches show as well are not judged here
+    from checks import tracker_common as tc
+    vkw = dict(depth=5, Sim=12, OwnUse=50, OwnCollect=50, Kind="batch", Slots={1, 2}, Confs={900, 800}, Feats={1}, Quals={90}, MaxDets=2)
+    r1, c1 = tc.generate_visual(chk, "v-own-one-scene", simulate={"num": 8 if quick else 100, "depth": 6}, Scenes={1}, **vkw)
+    base = vlib.run_vh(tc.visual_args(c1, "batchvisual", 2, "all"), [r1.out])
+    r2_, c2 = tc.generate_visual(chk, "v-own-two-scenes", simulate={"num": 10 if quick else 150, "depth": 6}, Scenes={1, 2}, **vkw)
+    args = tc.visual_args(c2, "batchvisual", 2, "all")
+    rep = vlib.run_vh(args, [r2_.out])
+    rep["nontrivial"] = rep["counters"].get("nt_C06", 0)
+    chk.add_report("v-own-two-scenes:batchvisual", rep)
+    rep["by_sig"] = {s_: v for s_, v in rep["by_sig"].items() if s_ not in base["by_sig"]}
+    chk.classify("tracker", args, rep)
     chk.assumptions += [
         "angles k*pi/2 are rounded to f32 by construction of the input (the boxes are then almost, not exactly, "
         "axis-aligned): the area tolerance is widened by the measured rounding x perimeter",
